@@ -1,0 +1,12 @@
+//go:build verif
+
+package erpc
+
+import "net"
+
+// VerifServeListener runs the peer's accept loop (the one ListenAndServe
+// uses) on a listener supplied by the verification harness, so that the
+// accept path can be driven over in-memory connections.
+func VerifServeListener(p Peer, lis net.Listener, protoFunc ...ProtoFunc) error {
+	return p.(*peer).serveListener(lis, protoFunc...)
+}
